@@ -350,6 +350,107 @@ func main() {
 		}
 	})
 
+	// collections over every kind of two-dimensional member: the collection's area is the sum of its members'
+	// areas (a bare ring keeps its sign, polygons and bounds are positive) and its centroid the mean weighted by them
+	r.Explore("collection-kinds", "collections of 1..3 members (ordered, with repetition) from a menu of 10: ring ccw / cw, polygon with a hole, polygon with cw outer, multi-polygon, bound, nested collection, cw triangle, point, line string; x 4 transforms: area is the exact sum over the 2-d members, centroid the area-weighted mean", mc.Opts{MaxDev: -1}, func(c *mc.Ctx) {
+		t := c.Choose(len(transforms))
+		scale := float64(transforms[t].scale)
+		type mom struct{ a, mx, my *big.Rat }
+		ringMom := func(ir []ipt, abs bool) mom {
+			a2, cx, cy := exactRing(ir)
+			a := new(big.Rat).SetFrac(a2, big.NewInt(2))
+			if abs {
+				a.Abs(a)
+			}
+			return mom{a, new(big.Rat).Mul(a, cx), new(big.Rat).Mul(a, cy)}
+		}
+		add := func(ms ...mom) mom {
+			o := mom{new(big.Rat), new(big.Rat), new(big.Rat)}
+			for _, m := range ms {
+				o.a.Add(o.a, m.a)
+				o.mx.Add(o.mx, m.mx)
+				o.my.Add(o.my, m.my)
+			}
+			return o
+		}
+		neg := func(m mom) mom {
+			return mom{new(big.Rat).Neg(m.a), new(big.Rat).Neg(m.mx), new(big.Rat).Neg(m.my)}
+		}
+		type member struct {
+			g orb.Geometry
+			m *mom // nil: lower-dimensional
+		}
+		mk := func(i int) member {
+			R := func(ir0 []ipt) (orb.Ring, []ipt) { return toRing(t, ir0) }
+			switch i {
+			case 0:
+				g, ir := R(sq(0, 0, 2, 2, true))
+				m := ringMom(ir, false)
+				return member{g, &m}
+			case 1:
+				g, ir := R(sq(4, 0, 8, 2, false))
+				m := ringMom(ir, false)
+				return member{g, &m}
+			case 2:
+				o, oir := R(sq(0, 4, 4, 8, true))
+				h, hir := R(sq(1, 5, 2, 7, false))
+				m := add(ringMom(oir, true), neg(ringMom(hir, true)))
+				return member{orb.Polygon{o, h}, &m}
+			case 3:
+				o, oir := R(sq(6, 4, 8, 6, false))
+				m := ringMom(oir, true)
+				return member{orb.Polygon{o}, &m}
+			case 4:
+				a, air := R(sq(10, 0, 12, 2, true))
+				b, bir := R(sq(10, 4, 12, 8, false))
+				m := add(ringMom(air, true), ringMom(bir, true))
+				return member{orb.MultiPolygon{{a}, {b}}, &m}
+			case 5:
+				_, ir := R(sq(0, 10, 4, 12, true))
+				m := ringMom(ir, true)
+				return member{orb.Bound{Min: fpt(ir[0]), Max: fpt(ir[2])}, &m}
+			case 6:
+				g, ir := R(sq(6, 10, 8, 12, false))
+				m := ringMom(ir, false)
+				return member{orb.Collection{g, fpt(tr(t, ipt{1, 1}))}, &m}
+			case 7:
+				g, ir := R([]ipt{{4, 8}, {4, 10}, {8, 8}})
+				m := ringMom(ir, false)
+				return member{g, &m}
+			case 8:
+				return member{fpt(tr(t, ipt{9, 9})), nil}
+			}
+			return member{orb.LineString{fpt(tr(t, ipt{0, 0})), fpt(tr(t, ipt{12, 12}))}, nil}
+		}
+		n := 1 + c.Choose(3)
+		var col orb.Collection
+		tot := add()
+		twoD := 0
+		for i := 0; i < n; i++ {
+			m := mk(c.Choose(10))
+			col = append(col, m.g)
+			if m.m != nil {
+				tot = add(tot, *m.m)
+				twoD++
+			}
+		}
+		if twoD == 0 {
+			return // lower-dimensional collections are the business of the next part
+		}
+		c.NonTrivial()
+		cen, a := planar.CentroidArea(col)
+		if a != f64(tot.a) || planar.Area(col) != a {
+			c.Failf("collection-kinds-area", "Area(collection) = %v (Area: %v), the exact sum over its 2-d members is %v | transform=%q collection=%v", a, planar.Area(col), f64(tot.a), transforms[t].name, col)
+			return
+		}
+		if tot.a.Sign() != 0 {
+			wx, wy := f64(new(big.Rat).Quo(tot.mx, tot.a)), f64(new(big.Rat).Quo(tot.my, tot.a))
+			if !relClose(cen[0], wx, 12*scale) || !relClose(cen[1], wy, 12*scale) {
+				c.Failf("collection-kinds-centroid", "centroid(collection) = %v, exact area-weighted mean = (%v,%v) | transform=%q collection=%v", cen, wx, wy, transforms[t].name, col)
+			}
+		}
+	})
+
 	// lower dimensions: multi-point (count weighted) and line strings (length weighted)
 	r.Explore("points-lines", "multi-points of 1..3 lattice points and line strings of 2..3 lattice points (axis-aligned / 3-4-5 steps so lengths are exact): centroid is the count- / length-weighted mean; collections of only such members", mc.Opts{MaxDev: -1}, func(c *mc.Ctx) {
 		t := c.Choose(len(transforms))
